@@ -2,6 +2,7 @@ import PyYetiVerif.Model.BulkGrid
 import PyYetiVerif.Model.BulkDmigX
 import PyYetiVerif.Model.BulkMulti
 import PyYetiVerif.Model.BulkReal
+import PyYetiVerif.Model.BulkUset
 /-! Line protocol for C13 (text travels as lowercase hex of its ASCII bytes; a file is its
 lines joined by `0a`).
 
@@ -18,6 +19,8 @@ lines joined by `0a`).
   rddmigx <expanded 0|1> <square 0|1> <hextext>   → like rddmig (`rddmig(f, expanded=…, square=…)`)
   pye <w> <p> <e|E|D> <bits>    → hex text of `'{:w.pE}'.format(x)` (x = the double with that bit pattern), pyf <w> <p> <bits> likewise
   dmigr <hexname> <single 0|1> <mtype> <nr> <nc> rowids colids entries(2·nr·nc bit patterns, row major re im) → hex text
+  usettab <n> (cord)×n <m> (g <id> <cd> <cdtype> hx hy hz | s <id>)×m   → hex text of uset2bulk | error:…
+  b2u <hextext>                 → `id.cd.type` per grid of bulk2uset's table | error
   fileok <seg>…                 → ok | bad      (`fileOKb bulkReaders`; <seg> = c<owner>/<hexline>/… | j/<hexline>/…)
   vecw  <arg>…                  → hex text of the rows (`" ".join`) | error:ValueError | error:IndexError
       <arg> = s <int>  |  v <k> <int>×k
@@ -258,6 +261,19 @@ def answer (line : String) : String :=
                             colids := colids, m := chunks nc ents }
           fileHex d.linesR
       | _, _, _, _ => "bad-op"
+  | "usettab" :: r => (do
+      let (cs, r) ← pCount pCord r
+      let pEnt : List String → Option (UEnt × List String)
+        | "g" :: i :: c :: t :: a :: b :: z :: r => match i.toInt?, c.toInt?, t.toInt? with
+            | some i, some c, some t => some (UEnt.grid i [] c t (ofHex a, ofHex b, ofHex z), r)
+            | _, _, _ => none
+        | "s" :: i :: r => i.toInt?.map fun i => (UEnt.spoint i 0, r)
+        | _ => none
+      let (es, _) ← pCount pEnt r
+      some (fmtRes (uset2bulkLines cs es))).getD "bad-op"
+  | ["b2u", t] => match bulk2usetGrids (linesOf t) with
+      | some gs => " ".intercalate (gs.map fun g => s!"{g.1}.{g.2.1}.{g.2.2}")
+      | none => "error"
   | "fileok" :: ws =>
       let segs : List (Option Seg) := ws.map fun w =>
         match w.splitOn "/" with
